@@ -476,7 +476,12 @@ Record areq := mkR {
   r_bindreq : bool;               (* requestCPUBind *)
   r_bind : Z; r_required : bool; r_excl : Z;
   r_hint : option (list Z);       (* hint.NUMANodeAffinity bits, ascending *)
-  r_cpu : Z; r_mem : Z }.         (* requests; -1 = key absent *)
+  r_cpu : Z; r_mem : Z;           (* requests; -1 = key absent *)
+  r_pref : list Z;                (* preferredCPUs: CPUs of a matched reservation given back to this pod *)
+  r_preempt : list Z }.           (* preemptibleCPUs: CPUs of preemption victims given back to this pod *)
+
+(* GetAvailableCPUs(nodeName, options.preferredCPUs, options.preemptibleCPUs) *)
+Definition givebacks (rq : areq) : list (list Z) := [r_pref rq; r_preempt rq].
 
 (* getAvailableNUMANodeResources (no amplification, nothing reusable) *)
 Definition numa_avail (o : nopts) (st : lstate) : list nres :=
@@ -488,7 +493,7 @@ Definition numa_avail (o : nopts) (st : lstate) : list nres :=
 Definition trim (o : nopts) (st : lstate) (rq : areq) (av : list nres) : list nres :=
   if negb (r_required rq) then av
   else
-    let free := fst (available (o_topo o) (o_maxref o) (o_reserved o) (l_cpus st) []) in
+    let free := fst (available (o_topo o) (o_maxref o) (o_reserved o) (l_cpus st) (givebacks rq)) in
     map (fun e =>
            if fst (snd e) =? 0 then e
            else
@@ -521,7 +526,7 @@ Fixpoint take_per_numa (o : nopts) (rq : areq) (avail : list Z) (allocated : lis
     let in_node := filter (fun i => cnode (find_cpu (o_topo o) i) =? fst e)
                           (filter (fun i => memZ i (map cid (o_topo o))) avail) in
     let k := Z.min (lenZ in_node) (fst (snd e) / 1000) in
-    match take_preferred (cfg_of o rq) in_node [] allocated k (r_bind rq) with
+    match take_preferred (cfg_of o rq) in_node (r_pref rq) allocated k (r_bind rq) with
     | None => None
     | Some cpus => take_per_numa o rq avail allocated t (set_union result cpus)
     end
@@ -529,7 +534,7 @@ Fixpoint take_per_numa (o : nopts) (rq : areq) (avail : list Z) (allocated : lis
 
 (* allocateCPUSet *)
 Definition allocate_cpuset (o : nopts) (st : lstate) (rq : areq) (numa : list nres) : option (list Z) :=
-  let '(avail0, allocated) := available (o_topo o) (o_maxref o) (o_reserved o) (l_cpus st) [] in
+  let '(avail0, allocated) := available (o_topo o) (o_maxref o) (o_reserved o) (l_cpus st) (givebacks rq) in
   let avail := if r_required rq then filter_by_policy (r_bind rq) (o_topo o) avail0 else avail0 in
   if lenZ avail <? r_n rq then None
   else
@@ -546,7 +551,7 @@ Definition allocate_cpuset (o : nopts) (st : lstate) (rq : areq) (numa : list nr
     | Some (result, n') =>
       let final :=
         if 0 <? n'
-        then match take_preferred (cfg_of o rq) (filter (fun i => negb (memZ i result)) avail) []
+        then match take_preferred (cfg_of o rq) (filter (fun i => negb (memZ i result)) avail) (r_pref rq)
                                   allocated n' (r_bind rq) with
              | None => None
              | Some cpus => Some (set_union result cpus)
@@ -585,7 +590,14 @@ Definition allocate (o : nopts) (st : lstate) (rq : areq) : option palloc :=
 Inductive op :=
 | OAlloc (rq : areq)            (* Allocate, then Update with the returned allocation (Reserve) *)
 | ORelease (uid : Z)            (* Release (Unreserve / pod deleted) *)
-| OUpdate (p : palloc).         (* Update with an allocation read back from annotations *)
+| OUpdate (p : palloc)          (* Update with an allocation read back from annotations *)
+| OAllocR (rq : areq) (host victim : option Z).
+  (* Allocate with CPUs given back (r_pref: the remaining CPUs of reservation [host];
+     r_preempt: the CPUs of preemption victim [victim]); on success the victim is released and
+     the allocation recorded. [host] is bookkeeping of the specification only. *)
+
+Definition release_opt (st : lstate) (v : option Z) : lstate :=
+  match v with Some uid => release st uid | None => st end.
 
 Definition step (o : nopts) (st : lstate) (x : op) : lstate * option palloc :=
   match x with
@@ -595,6 +607,11 @@ Definition step (o : nopts) (st : lstate) (x : op) : lstate * option palloc :=
                  end
   | ORelease uid => (release st uid, None)
   | OUpdate p => (update st p, Some p)
+  | OAllocR rq _ victim =>
+    match allocate o st rq with
+    | Some p => (update (release_opt st victim) p, Some p)
+    | None => (st, None)
+    end
   end.
 
 Definition run (o : nopts) (ops : list op) : lstate :=
